@@ -35,7 +35,7 @@ def REQUIRED(tier):
 
 def _required(tier):
     return ["azimuth:outside_0_360", "angles:non_degree_unit", "edit:strings_containing_keywords", "object:after_product_at_other_depth", "bytes_roundtrips", "object_roundtrips", "edits_applied", "edits_refused_file_identical", "sky:dec_in_(-1,0)", "sky:carry_59.99",
-            "frame:pulsarcentric", "frame:barycentric", "frame:topocentric", "edit:absent_key", "edit:unknown_key", "edit:wrong_type", "edit:out_of_range", "derived:from_int_typed_template", "derived:update_to_zero", "derived:telescope_not_in_id_table"]
+            "frame:pulsarcentric", "frame:barycentric", "frame:topocentric", "edit:absent_key", "edit:unknown_key", "edit:wrong_type", "edit:out_of_range", "derived:from_int_typed_template", "derived:update_to_zero", "derived:telescope_not_in_id_table", "edit:wrong_type_same_encoded_length"]
 
 
 def cases(tier, seed):
@@ -326,11 +326,14 @@ def _edit(case, ctx):
             old = dict(items).get(k, "")
             vals = [("valid-samelen", "Z" * len(old)), ("longer", old + "xx"), ("shorter", old[:-1] if old else "q"), ("wrong_type", 12345), ("wrong_type", 1.5), ("empty", "")]
         elif code == "<I":
-            vals = [("valid", int(rng.integers(0, 2**32))), ("valid", 0), ("out_of_range", -1), ("out_of_range", 2**32), ("wrong_type", "abc"), ("wrong_type", 2.5), ("wrong_type", None)]
+            vals = [("valid", int(rng.integers(0, 2**32))), ("valid", 0), ("out_of_range", -1), ("out_of_range", 2**32), ("wrong_type", "abc"), ("wrong_type", 2.5), ("wrong_type", None),
+                    # text whose string encoding (4-byte length + characters) happens to be as long as the binary field
+                    ("wrong_type_same_encoded_length", ""), ("wrong_type", "1024")]
         elif code == "<b":
             vals = [("valid", int(rng.integers(-128, 128))), ("out_of_range", 128), ("out_of_range", -129), ("wrong_type", "x"), ("wrong_type", 0.5)]
         elif code == "<d":
-            vals = [("valid", _rand_val(rng, "<d")), ("valid", int(rng.integers(-100, 100))), ("wrong_type", "1.0"), ("wrong_type", None), ("wrong_type", [1.0])]
+            vals = [("valid", _rand_val(rng, "<d")), ("valid", int(rng.integers(-100, 100))), ("wrong_type", "1.0"), ("wrong_type", None), ("wrong_type", [1.0]),
+                    ("wrong_type_same_encoded_length", "1400"), ("wrong_type_same_encoded_length", "1e-4"), ("wrong_type", ""), ("wrong_type", "56.75000")]
         else:
             vals = [("unknown_key", 1), ("unknown_key", "x")]
         for cls, v in vals:
@@ -398,7 +401,7 @@ def _edit(case, ctx):
             okv = (newv == want) or (isinstance(want, str) and isinstance(newv, str) and newv.rstrip(" ") == want[: len(dict(items)[k])].rstrip(" "))
             if not okv:
                 ctx.violation(f"edit-wrong-value:{lab}", f"asked {want!r}, file now holds {newv!r}", one)
-        if cls in ("wrong_type", "out_of_range", "unknown_key") and after != before:
+        if cls in ("wrong_type", "wrong_type_same_encoded_length", "out_of_range", "unknown_key") and after != before:
             ctx.count("lenient_edit_applied:" + cls)
             # an edit that is accepted must store what was asked for (2.5 is not 2): refusing is the other legitimate outcome
             try:
